@@ -56,7 +56,13 @@ type VerifOp struct {
 	Via   string         `json:"via,omitempty"` // setpubns: batch | txn
 	Names []string       `json:"names,omitempty"`
 	B     *VerifOp       `json:"b,omitempty"` // concurrent_pair: the second actor's operation
+	Items []VerifPubItem `json:"items,omitempty"` // setpubnsm: meta entities posted back to core.Dataset in one batch
 	At    string         `json:"at,omitempty"` // concurrent_pair: pause point of actor 1: "" = updateDataset.afterRead, "commit" = batch.beforeIdCommit
+}
+
+type VerifPubItem struct {
+	Ds    string   `json:"ds"`
+	PubNs []string `json:"pubns"`
 }
 
 type VerifCase struct {
@@ -384,6 +390,38 @@ func verifSetPubNs(h *verifHub, name string, pubns []string, via string) error {
 	return h.dsm.GetDataset(datasetCore).StoreEntities([]*Entity{e})
 }
 
+// verifSetPubNsM: what an operator does who reads core.Dataset's latest view, edits publicNamespaces of several
+// entries (live datasets or tombstones of deleted ones) and posts them back in one batch, in the given order.
+func verifSetPubNsM(h *verifHub, items []VerifPubItem) error {
+	dsInfo, err := h.store.NamespaceManager.GetDatasetNamespaceInfo()
+	if err != nil {
+		return err
+	}
+	core := h.dsm.GetDataset(datasetCore)
+	page := make(map[string]*Entity)
+	if _, err := core.MapEntities("", 0, func(e *Entity) error { page[verifLocal(e.ID)] = e; return nil }); err != nil {
+		return err
+	}
+	batch := make([]*Entity, 0, len(items))
+	for _, it := range items {
+		e, ok := page[it.Ds]
+		if !ok {
+			continue // never had a meta entity
+		}
+		if len(it.PubNs) == 0 {
+			delete(e.Properties, dsInfo.PublicNamespacesKey)
+		} else {
+			l := make([]interface{}, 0, len(it.PubNs))
+			for _, s := range it.PubNs {
+				l = append(l, s)
+			}
+			e.Properties[dsInfo.PublicNamespacesKey] = l
+		}
+		batch = append(batch, e)
+	}
+	return core.StoreEntities(batch)
+}
+
 func verifDoOp(h *verifHub, c VerifCase, op VerifOp) (oo VerifOpObs) {
 	defer func() {
 		if r := recover(); r != nil {
@@ -418,6 +456,10 @@ func verifDoOp(h *verifHub, c VerifCase, op VerifOp) (oo VerifOpObs) {
 			return
 		}
 		if err := verifSetPubNs(h, op.Ds, op.PubNs, op.Via); err != nil {
+			oo.Err = err.Error()
+		}
+	case "setpubnsm":
+		if err := verifSetPubNsM(h, op.Items); err != nil {
 			oo.Err = err.Error()
 		}
 	case "restart":
